@@ -50,20 +50,20 @@ func decodeChars(ss []string) string {
 // ------------------------------------------------------------------ abstract values -> Go values
 
 type absVal struct {
-	T    string             `json:"t"`
-	N    int                `json:"n"`
-	B    bool               `json:"b"`
-	S    []string           `json:"s"`
-	Num  int64              `json:"num"`
-	Exp  uint               `json:"exp"`
-	Xs   []absVal           `json:"xs"`
-	M    map[string]absVal  `json:"-"`
-	MRaw json.RawMessage    `json:"m"`
-	Name string             `json:"name"`
-	Kind string             `json:"kind"`
-	Go   string             `json:"go"`
-	FRaw json.RawMessage    `json:"f"`
-	Ps   []string           `json:"ps"`
+	T    string            `json:"t"`
+	N    int               `json:"n"`
+	B    bool              `json:"b"`
+	S    []string          `json:"s"`
+	Num  int64             `json:"num"`
+	Exp  uint              `json:"exp"`
+	Xs   []absVal          `json:"xs"`
+	M    map[string]absVal `json:"-"`
+	MRaw json.RawMessage   `json:"m"`
+	Name string            `json:"name"`
+	Kind string            `json:"kind"`
+	Go   string            `json:"go"`
+	FRaw json.RawMessage   `json:"f"`
+	Ps   []string          `json:"ps"`
 }
 
 // absMap decodes a TLA+ function with string domain; TLC prints the empty function as [].
@@ -394,10 +394,10 @@ type piece struct {
 }
 
 type expectation struct {
-	K      string      `json:"k"` // out | err | unspec
-	Pieces []piece     `json:"pieces"`
-	W      bool        `json:"w"`
-	Log    []probeExp  `json:"log"`
+	K      string     `json:"k"` // out | err | unspec
+	Pieces []piece    `json:"pieces"`
+	W      bool       `json:"w"`
+	Log    []probeExp `json:"log"`
 }
 
 type probeExp struct {
@@ -582,7 +582,8 @@ func (sc *semCase) sources() map[string]string {
 }
 
 // semOutcome classifies one execution against the expectation.
-//   "" agrees; otherwise a failure signature and message.
+//
+//	"" agrees; otherwise a failure signature and message.
 type semVerdict struct {
 	Sig, Msg string
 	Obs      observation
